@@ -114,6 +114,23 @@ def generate(rs: int, tier: str, index: int) -> dict:
             "skiprows": ch.sub("skip").choice([0, 0, 0, 1, 2]),
             "footer": ch.choice(["", "", "", "the end", "\n"]),
         })
+        co = ch.sub("typed")
+        if fmt == "%d" and co.chance(0.6):
+            # integers written exactly are read back exactly when the caller names the type; beyond 2**53 a detour
+            # through float64 shows
+            step["load_dtype"] = "int64"
+            if co.chance(0.6) and "big_exponents" not in lit:
+                for col in lit["coefficients"]:
+                    for i, v in enumerate(col):
+                        if v and co.chance(0.5):
+                            col[i] = (1 if v > 0 else -1) * (2 ** co.choice([53, 54, 60, 62]) + co.choice([1, 3, 5]))
+        cw = ch.sub("overwrite")
+        if step["target"] in ("path_str", "pathlike") and cw.chance(0.5):
+            # the same name is written a second (and third) time: what is on disk NOW decides what loads
+            n2 = model.gen_names(cw.sub("n"), 1, 4)
+            s2 = cw.choice([(), (2,), (3,), (2, 2), tuple(shape)])
+            step["then"] = {"p": gen_poly(cw.sub("p"), names=n2, shape=s2, kind=kindc, max_exp=3), "plain": cw.chance(0.5),
+                            "rows": [[float(cw.choice([-2, 0, 1, 2.5, 3])) for _ in range(cw.sub("c").between(1, 3))] for _ in range(cw.sub("r").between(1, 4))]}
     else:
         rows, cols = ch.between(1, 4), ch.between(1, 3)
         step["rows"] = [[float(ch.choice([-2, 0, 1, 2.5, 3])) for _ in range(cols)] for _ in range(rows)]
@@ -345,6 +362,8 @@ class Runner:
         nlead = 1 + (len(step["header"].split("\n")) if step["header"] else 0)
         if step.get("skiprows") and step["skiprows"] <= nlead:
             load_kw["skiprows"] = step["skiprows"]
+        if step.get("load_dtype"):
+            load_kw["dtype"] = numpy.dtype(step["load_dtype"])
         saver = numpoly.savetxt if step["spelling"] == "numpoly" else numpy.savetxt
         tol = _tol(step["fmt"])
         with fileseam.FileEnv(locale=step["locale"]) as env:
@@ -444,6 +463,37 @@ class Runner:
                 self.violate("text-roundtrip", "loadtxt", sid, f"target {kind} locale {step['locale']} fmt {step['fmt']!r} delimiter {step['delimiter']!r} comments {step['comments']!r} header {step['header']!r} shape {p.shape} view {step['view']}: {msg}",
                              dict(where, view=step["view"]))
             nreads = fr.reads
+            # ---- the same path written again: a second polynomial, then a plain table; each load sees the current file
+            if step.get("then") and msg is None and not kind.startswith("sim"):
+                then = step["then"]
+                try:
+                    p2 = model.build_poly(then["p"])
+                except core.Undecided:
+                    p2 = None
+                if p2 is not None:
+                    self.bump("probe:same_path_rewritten")
+                    try:
+                        saver(self._target(env, kind, fileseam.Faults()), p2, **save_kw)
+                    except Exception as exc:  # noqa: BLE001
+                        if not (core.through_numpoly(exc, NUMPOLY_DIR) or isinstance(exc, (UnicodeError, OSError, ValueError, TypeError))):
+                            raise
+                        self.violate("save-raises", "savetxt", sid, f"second save to the same path: {type(exc).__name__}: {exc}", where)
+                        p2 = None
+                if p2 is not None:
+                    m2 = self._load_and_compare(env, kind, target, p2, load_kw, tol, fileseam.Faults())
+                    if m2:
+                        self.violate("text-roundtrip", "loadtxt", sid, f"the path was saved a second time with another polynomial and loaded again: {m2}", dict(where, rewritten=True))
+                if then.get("plain"):
+                    rows = numpy.array(then["rows"])
+                    numpy.savetxt(self._target(env, kind, fileseam.Faults()), rows)
+                    try:
+                        got = numpoly.loadtxt(self._reader(env, kind, target, fileseam.Faults()))
+                    except Exception as exc:  # noqa: BLE001
+                        self.violate("headerless-plain-array", "loadtxt", sid, f"a plain table saved over a polynomial file: {type(exc).__name__}: {exc}", dict(where, rewritten=True))
+                    else:
+                        want = numpy.loadtxt(self._reader(env, kind, target, fileseam.Faults()))
+                        if isinstance(got, numpoly.ndpoly) or not isinstance(got, numpy.ndarray) or got.shape != want.shape or not numpy.array_equal(got, want):
+                            self.violate("headerless-plain-array", "loadtxt", sid, f"a plain table saved over a polynomial file loads as {type(got).__name__} {getattr(got, 'tolist', lambda: got)()}, expected {want.tolist()}", dict(where, rewritten=True))
             # ---- a file that lost its last data rows (an unacknowledged save, a copy cut at a line boundary): the header
             # still states the shape, so loading raises or restores that shape - never a shorter array
             if msg is None and kind.startswith("sim") and p.size > 1 and not step.get("footer"):
